@@ -7,6 +7,7 @@
 -/
 import Props.Lemmas.C19_Find
 import Props.Lemmas.C19_Session
+import Props.Lemmas.C19_Chain
 
 namespace Pypyr.C19
 open Pypyr.Resolve
@@ -440,5 +441,538 @@ example :
     st1.sysPath = [] ∧ st1.missing = [["late"]] ∧
     (getPipelineDefinition fsB st1 (.abs ["late", "x"]) none).2.sysPath = [["late"]] := by
   decide
+
+/-! ### pype children at ANY depth
+
+  `runChainR`: a root pipeline followed by any number of pype hops, each invoked from the pipeline
+  the previous hop loaded; on any tree (symlinks, `..`), with `py_dir`s and step imports.
+  `hopSpec … caller h` is the property text for ONE look-up (`loadSpec`, spelled out by
+  `hop_file_rel_spec` / `hop_file_abs_spec` / `hop_custom_spec` below), made with the loader and
+  the parent `get_arguments` derives from `caller`; `callerAt caller L i` is the chain's own caller
+  for `i = 0` and the `PipelineInfo` of the pipeline loaded at hop `i-1` otherwise. -/
+
+/-- `chain_spec` — for EVERY chain of hops (any length), any process state, any file system:
+    (1) every pipeline loaded at hop `i` is what the property text prescribes for hop `i`'s name
+        with the loader and parent derived from the pipeline loaded at hop `i-1` (by
+        `hop_file_rel_spec`: the first existing candidate of the search list built from THAT file's
+        directory — or not, per the hop's `resolveFromParent` / `parent` / `loader` keys);
+    (2) only the last loaded pipeline can be one of pypyr's built-ins;
+    (3) an error ends the chain: it is the error the property text prescribes for the first hop
+        that was not loaded (for a relative name: the not-found text listing the places searched,
+        `hop_not_found_lists_searched`) — or a step module of the last loaded pipeline was not found;
+    (4) without an error every hop was loaded, unless a built-in ended the chain. -/
+theorem chain_spec (fs : Fs) (custom : String → Option (Bool × Bool)) (has : Path → String → Bool)
+    (importsOf : Loaded → List String) (rootLoader : Option String) (hops : List Hop) :
+    ∀ (st : Proc) (caller : Option Info),
+      (((runChainR fs custom has importsOf st caller rootLoader hops).1.map (·.1)).length ≤ hops.length) ∧
+      (∀ i h ld, hops[i]? = some h →
+          ((runChainR fs custom has importsOf st caller rootLoader hops).1.map (·.1))[i]? = some ld →
+          hopSpec fs custom rootLoader
+            (callerAt caller ((runChainR fs custom has importsOf st caller rootLoader hops).1.map (·.1)) i) h = .ok ld) ∧
+      (∀ i ld, ((runChainR fs custom has importsOf st caller rootLoader hops).1.map (·.1))[i]? = some ld →
+          i + 1 < ((runChainR fs custom has importsOf st caller rootLoader hops).1.map (·.1)).length →
+          endsChain fs ld = false) ∧
+      (∀ e, (runChainR fs custom has importsOf st caller rootLoader hops).2.1 = some e →
+          (∃ h, hops[((runChainR fs custom has importsOf st caller rootLoader hops).1.map (·.1)).length]? = some h ∧
+              hopSpec fs custom rootLoader
+                (callerAt caller ((runChainR fs custom has importsOf st caller rootLoader hops).1.map (·.1))
+                  ((runChainR fs custom has importsOf st caller rootLoader hops).1.map (·.1)).length) h = .error e) ∨
+          (∃ x ∈ (runChainR fs custom has importsOf st caller rootLoader hops).1, ∃ m, (m, none) ∈ x.2 ∧
+              e = modNotFoundMsg m)) ∧
+      ((runChainR fs custom has importsOf st caller rootLoader hops).2.1 = none →
+          ((runChainR fs custom has importsOf st caller rootLoader hops).1.map (·.1)).length = hops.length ∨
+          ∃ ld, ((runChainR fs custom has importsOf st caller rootLoader hops).1.map (·.1)).getLast? = some ld ∧
+            endsChain fs ld = true) := by
+  induction hops with
+  | nil =>
+    intro st caller
+    simp [runChainR]
+  | cons h hs ih =>
+    intro st caller
+    have hspec := loadOneR_fst fs custom st.load (hopArgs rootLoader caller h).1 h (hopArgs rootLoader caller h).2
+    cases hld : loadOneR fs custom st.load (hopArgs rootLoader caller h).1 h (hopArgs rootLoader caller h).2 with
+    | mk res ld' =>
+      rw [hld] at hspec
+      simp only at hspec
+      cases res with
+      | error e =>
+        simp only [runChainR, hld, List.map_nil, List.length_nil]
+        refine ⟨by simp, by simp, by simp, ?_, by simp⟩
+        intro e' he'
+        simp only [Option.some.injEq] at he'
+        subst he'
+        exact Or.inl ⟨h, by simp, by simpa [hopSpec, callerAt] using hspec.symm⟩
+      | ok ld =>
+        have h0 : hopSpec fs custom rootLoader caller h = .ok ld := hspec.symm
+        by_cases hend : endsChain fs ld = true
+        · simp only [runChainR, hld, hend, if_true, List.map_cons, List.map_nil, List.length_cons, List.length_nil]
+          refine ⟨by simp, ?_, by simp, by simp, ?_⟩
+          · intro i h' ld1 hh hl
+            cases i with
+            | zero =>
+              simp only [List.getElem?_cons_zero, Option.some.injEq] at hh hl
+              subst hh hl
+              exact h0
+            | succ j => simp at hl
+          · intro _
+            exact Or.inr ⟨ld, by simp, hend⟩
+        · have hend' : endsChain fs ld = false := by simpa using hend
+          cases hfind : (importAll ld'.sysPath has st.modules (importsOf ld)).1.find? (fun x => x.2.isNone) with
+          | some x =>
+            simp only [runChainR, hld, hend', Bool.false_eq_true, if_false, hfind, List.map_cons, List.map_nil,
+              List.length_cons, List.length_nil]
+            refine ⟨by simp, ?_, by simp, ?_, by simp⟩
+            · intro i h' ld1 hh hl
+              cases i with
+              | zero =>
+                simp only [List.getElem?_cons_zero, Option.some.injEq] at hh hl
+                subst hh hl
+                exact h0
+              | succ j => simp at hl
+            · intro e he
+              simp only [Option.some.injEq] at he
+              subst he
+              refine Or.inr ⟨_, List.mem_singleton.mpr rfl, x.1, ?_, rfl⟩
+              have hm := List.mem_of_find?_eq_some hfind
+              have hp := List.find?_some hfind
+              obtain ⟨a, b⟩ := x
+              cases b with
+              | none => exact hm
+              | some d => simp at hp
+          | none =>
+            obtain ⟨ih1, ih2, ih3, ih4, ih5⟩ :=
+              ih { load := ld', modules := (importAll ld'.sysPath has st.modules (importsOf ld)).2 } (some (infoOf ld))
+            simp only [runChainR, hld, hend', Bool.false_eq_true, if_false, hfind, List.map_cons, List.length_cons]
+            refine ⟨by omega, ?_, ?_, ?_, ?_⟩
+            · intro i h' ld1 hh hl
+              cases i with
+              | zero =>
+                simp only [List.getElem?_cons_zero, Option.some.injEq] at hh hl
+                subst hh hl
+                exact h0
+              | succ j =>
+                simp only [List.getElem?_cons_succ] at hh hl
+                rw [callerAt_cons]
+                exact ih2 j h' ld1 hh hl
+            · intro i ld1 hl hlt
+              cases i with
+              | zero =>
+                simp only [List.getElem?_cons_zero, Option.some.injEq] at hl
+                subst hl
+                exact hend'
+              | succ j =>
+                simp only [List.getElem?_cons_succ] at hl
+                exact ih3 j ld1 hl (by omega)
+            · intro e he
+              rcases ih4 e he with ⟨h', hh, hs'⟩ | ⟨x, hx, m, hm, hem⟩
+              · refine Or.inl ⟨h', by simpa using hh, ?_⟩
+                rw [callerAt_cons]
+                exact hs'
+              · exact Or.inr ⟨x, List.mem_cons_of_mem _ hx, m, hm, hem⟩
+            · intro hn
+              rcases ih5 hn with hlen | ⟨ldl, hl, he⟩
+              · exact Or.inl (by omega)
+              · refine Or.inr ⟨ldl, ?_, he⟩
+                rw [List.getLast?_cons]
+                simp [hl]
+
+/-- one hop spelled out, file loader, relative name: the first existing file among
+    `realpath(parent)/<name>.yaml` (only if a parent is given, its real path exists and is not the
+    cwd), `cwd/<name>.yaml`, `cwd/pipelines/<name>.yaml`, `{pypyr}/pipelines/<name>.yaml`, resolved;
+    when none exists the not-found error listing exactly those directories. -/
+theorem hop_file_rel_spec (fs : Fs) (custom : String → Option (Bool × Bool)) (rootLoader : Option String)
+    (caller : Option Info) (h : Hop) (parts : List String) (hn : h.name = .rel parts)
+    (hl : effLoader (hopArgs rootLoader caller h).1 = fileLoader) :
+    hopSpec fs custom rootLoader caller h =
+      match (candidatesR fs (hopArgs rootLoader caller h).2 parts).find? fs.isFile with
+      | some q => .ok (.file (fs.realpath q))
+      | none => .error (notFoundMsg ("/".intercalate (fileParts parts))
+                  (searchDirs fs ((hopArgs rootLoader caller h).2.map fs.realpath))) := by
+  simp only [hopSpec, loadSpec, hl, if_true, hn, getPipelinePathR_rel]
+  cases List.find? fs.isFile (candidatesR fs (hopArgs rootLoader caller h).2 parts) <;> rfl
+
+/-- … absolute name: that path and nowhere else, whatever the caller -/
+theorem hop_file_abs_spec (fs : Fs) (custom : String → Option (Bool × Bool)) (rootLoader : Option String)
+    (caller : Option Info) (h : Hop) (parts : List String) (hn : h.name = .abs parts)
+    (hl : effLoader (hopArgs rootLoader caller h).1 = fileLoader) :
+    hopSpec fs custom rootLoader caller h =
+      if fs.isFile (fileParts parts) = true then .ok (.file (fs.realpath (fileParts parts)))
+      else .error (pathStr (fileParts parts) ++ " does not exist.") := by
+  simp only [hopSpec, loadSpec, hl, if_true, hn, getPipelinePathR_abs]
+  by_cases hf : fs.isFile (fileParts parts) = true <;> simp [hf]
+
+/-- … another loader: it is handed the raw name and the (unresolved) parent; no file is looked for -/
+theorem hop_custom_spec (fs : Fs) (custom : String → Option (Bool × Bool)) (rootLoader : Option String)
+    (caller : Option Info) (h : Hop) (pc lc : Bool)
+    (hl : effLoader (hopArgs rootLoader caller h).1 ≠ fileLoader)
+    (hc : custom (effLoader (hopArgs rootLoader caller h).1) = some (pc, lc)) :
+    hopSpec fs custom rootLoader caller h =
+      .ok (.custom (effLoader (hopArgs rootLoader caller h).1) h.nameStr (hopArgs rootLoader caller h).2 pc lc) := by
+  simp [hopSpec, loadSpec, hl, hc]
+
+/-- the default hop (no `loader` / `resolveFromParent` / `parent` keys) below a file-loaded pipeline
+    `p`: file loader, parent = the directory of `p` — at every depth. -/
+theorem hop_default_args (rootLoader : Option String) (p : Path) (h : Hop)
+    (h1 : h.pype.loader = none) (h2 : h.pype.resolveFromParent = none) (h3 : h.pype.parent = none) :
+    hopArgs rootLoader (some (infoOf (.file p))) h = (some fileLoader, some (dirOf p)) := by
+  simp [hopArgs, childLoader, childParent, infoOf, h1, h2, h3]
+
+theorem effLoader_fileLoader : effLoader (some fileLoader) = fileLoader := by decide +kernel
+
+/-- `chain_child_from_previous_file` — in EVERY chain: if hop `i` loaded the file `p` and hop `i+1`
+    has a relative name and no steering keys, then what hop `i+1` loaded is the first existing
+    candidate of the search list that starts with the directory of `p` (the RESOLVED file). -/
+theorem chain_child_from_previous_file (fs : Fs) (custom : String → Option (Bool × Bool))
+    (has : Path → String → Bool) (importsOf : Loaded → List String) (rootLoader : Option String) (hops : List Hop) (st : Proc)
+    (caller : Option Info) (i : Nat) (p : Path) (h : Hop) (parts : List String) (ld : Loaded)
+    (hp : ((runChainR fs custom has importsOf st caller rootLoader hops).1.map (·.1))[i]? = some (.file p))
+    (hh : hops[i + 1]? = some h) (hn : h.name = .rel parts)
+    (h1 : h.pype.loader = none) (h2 : h.pype.resolveFromParent = none) (h3 : h.pype.parent = none)
+    (hl : ((runChainR fs custom has importsOf st caller rootLoader hops).1.map (·.1))[i + 1]? = some ld) :
+    ∃ q, (candidatesR fs (some (dirOf p)) parts).find? fs.isFile = some q ∧ ld = .file (fs.realpath q) := by
+  have hs := (chain_spec fs custom has importsOf rootLoader hops st caller).2.1 (i + 1) h ld hh hl
+  have hc : callerAt caller ((runChainR fs custom has importsOf st caller rootLoader hops).1.map (·.1)) (i + 1)
+      = some (infoOf (.file p)) := by simp [callerAt, hp]
+  rw [hc] at hs
+  have ha := hop_default_args rootLoader p h h1 h2 h3
+  have hl' : effLoader (hopArgs rootLoader (some (infoOf (.file p))) h).1 = fileLoader := by
+    rw [ha]; exact effLoader_fileLoader
+  rw [hop_file_rel_spec fs custom rootLoader _ h parts hn hl', ha] at hs
+  cases hf : List.find? fs.isFile (candidatesR fs (some (dirOf p)) parts) with
+  | none => simp [hf] at hs
+  | some q =>
+    simp only [hf, Except.ok.injEq] at hs
+    exact ⟨q, rfl, hs.symm⟩
+
+/-- `hop_not_found_lists_searched` — a relative name that exists in none of its places ends the
+    chain at that hop with the file name followed by the places searched, one per line, in search
+    order (the parent as RESOLVED). -/
+theorem hop_not_found_lists_searched (fs : Fs) (custom : String → Option (Bool × Bool))
+    (rootLoader : Option String) (caller : Option Info) (h : Hop) (parts : List String)
+    (hn : h.name = .rel parts) (hl : effLoader (hopArgs rootLoader caller h).1 = fileLoader)
+    (hnone : ∀ q ∈ candidatesR fs (hopArgs rootLoader caller h).2 parts, fs.isFile q = false) :
+    hopSpec fs custom rootLoader caller h =
+      .error ("/".intercalate (fileParts parts) ++ " not found in any of the following:\n" ++
+        "\n".intercalate ((searchDirs fs ((hopArgs rootLoader caller h).2.map fs.realpath)).map pathStr)) := by
+  rw [hop_file_rel_spec fs custom rootLoader caller h parts hn hl]
+  have : (candidatesR fs (hopArgs rootLoader caller h).2 parts).find? fs.isFile = none :=
+    List.find?_eq_none.mpr (fun q hq => by simp [hnone q hq])
+  rw [this]
+  rfl
+
+/-- a chain of depth 3 on `exFs3`: `/e/r.yaml` → `c1` (found next to it) → `c2` with
+    `resolveFromParent: false` (found in the cwd although `/e/c2.yaml` exists) → `c3` (its caller is
+    in the cwd: cwd, cwd/pipelines, built-ins) — not found, the places listed. -/
+def exFs3 : Fs :=
+  { cwd := ["w"], builtin := ["b"],
+    isFile := fun p => p == ["e", "r.yaml"] || p == ["e", "c1.yaml"] || p == ["e", "c2.yaml"] || p == ["w", "c2.yaml"],
+    dirExists := fun d => d == ["w"] || d == ["e"] || d == ["b"] }
+
+def noKeys : PypeIn := { loader := none, resolveFromParent := none, parent := none }
+
+example : (runChainR exFs3 (fun _ => none) (fun _ _ => false) (fun _ => [])
+      { load := { fileCache := [], sysPath := [], known := [] } } none none
+      [{ nameStr := "/e/r", name := .abs ["e", "r"], pype := noKeys },
+       { nameStr := "c1", name := .rel ["c1"], pype := noKeys },
+       { nameStr := "c2", name := .rel ["c2"], pype := { noKeys with resolveFromParent := some (.bool false) } },
+       { nameStr := "c3", name := .rel ["c3"], pype := noKeys }]).1.map (·.1) =
+      [.file ["e", "r.yaml"], .file ["e", "c1.yaml"], .file ["w", "c2.yaml"]] ∧
+    (runChainR exFs3 (fun _ => none) (fun _ _ => false) (fun _ => [])
+      { load := { fileCache := [], sysPath := [], known := [] } } none none
+      [{ nameStr := "/e/r", name := .abs ["e", "r"], pype := noKeys },
+       { nameStr := "c1", name := .rel ["c1"], pype := noKeys },
+       { nameStr := "c2", name := .rel ["c2"], pype := { noKeys with resolveFromParent := some (.bool false) } },
+       { nameStr := "c3", name := .rel ["c3"], pype := noKeys }]).2.1 =
+      some "c3.yaml not found in any of the following:\n/w\n/w/pipelines\n/b" := by
+  constructor <;> rfl
+
+/-- `chain_sys_path` — along EVERY chain the `sys.path` invariant is kept and `sys.path` only grows:
+    the directory of every file loaded (as resolved) and every existing `py_dir` is on `sys.path`
+    from its load on — in particular when that pipeline's step modules are imported. -/
+theorem chain_sys_path (fs : Fs) (hfs : FsOkR fs) (custom : String → Option (Bool × Bool))
+    (has : Path → String → Bool) (importsOf : Loaded → List String) (rootLoader : Option String) (hops : List Hop) :
+    ∀ (st : Proc) (caller : Option Info), Good st.load →
+      Good (runChainR fs custom has importsOf st caller rootLoader hops).2.2.load ∧
+      (∀ x ∈ st.load.sysPath, x ∈ (runChainR fs custom has importsOf st caller rootLoader hops).2.2.load.sysPath) ∧
+      ∀ x ∈ (runChainR fs custom has importsOf st caller rootLoader hops).1, ∀ p, x.1 = .file p →
+        dirOf p ∈ (runChainR fs custom has importsOf st caller rootLoader hops).2.2.load.sysPath := by
+  induction hops with
+  | nil => intro st caller hg; simp [runChainR, hg]
+  | cons h hs ih =>
+    intro st caller hg
+    have hl := loadOneR_good fs hfs custom st.load hg (hopArgs rootLoader caller h).1 h (hopArgs rootLoader caller h).2
+    cases hld : loadOneR fs custom st.load (hopArgs rootLoader caller h).1 h (hopArgs rootLoader caller h).2 with
+    | mk res ld' =>
+      rw [hld] at hl
+      simp only at hl
+      obtain ⟨hg', hmono, _, hfile⟩ := hl
+      cases res with
+      | error e =>
+        simp only [runChainR, hld]
+        exact ⟨hg', hmono, by simp⟩
+      | ok ld =>
+        by_cases hend : endsChain fs ld = true
+        · simp only [runChainR, hld, hend, if_true]
+          refine ⟨hg', hmono, ?_⟩
+          intro x hx p hp
+          simp only [List.mem_singleton] at hx
+          subst hx
+          simp only at hp
+          subst hp
+          exact hfile p rfl
+        · have hend' : endsChain fs ld = false := by simpa using hend
+          cases hfind : (importAll ld'.sysPath has st.modules (importsOf ld)).1.find? (fun x => x.2.isNone) with
+          | some x =>
+            simp only [runChainR, hld, hend', Bool.false_eq_true, if_false, hfind]
+            refine ⟨hg', hmono, ?_⟩
+            intro y hy p hp
+            simp only [List.mem_singleton] at hy
+            subst hy
+            simp only at hp
+            subst hp
+            exact hfile p rfl
+          | none =>
+            obtain ⟨ihg, ihmono, ihfile⟩ :=
+              ih { load := ld', modules := (importAll ld'.sysPath has st.modules (importsOf ld)).2 } (some (infoOf ld)) hg'
+            simp only [runChainR, hld, hend', Bool.false_eq_true, if_false, hfind]
+            refine ⟨ihg, fun x hx => ihmono x (hmono x hx), ?_⟩
+            intro y hy p hp
+            rcases List.mem_cons.mp hy with rfl | hy
+            · simp only at hp
+              subst hp
+              exact ihmono _ (hfile p rfl)
+            · exact ihfile y hy p hp
+
+/-! ### symlinks and `..`: the children's parent and the `sys.path` entry are the TARGET's directory -/
+
+/-- `child_parent_is_realpath_dir` — whatever a look-up finds, what it returns is the RESOLVED file
+    (`find_pipeline`: `path.resolve()`): the file's real directory — not the directory of the
+    candidate it was found as — is the parent a default pype child is looked up from first, and it
+    is that directory which `load_pipeline_from_file` puts on `sys.path`. -/
+theorem child_parent_is_realpath_dir (fs : Fs) (hfs : FsOkR fs) (st : LoadState) (hg : Good st)
+    (name : Name) (parent : Option Path) (p : Path)
+    (h : getPipelinePathR fs name parent = .ok p) :
+    (∃ q, fs.isFile q = true ∧ p = fs.realpath q ∧
+      (∀ parts, name = .abs parts → q = fileParts parts) ∧
+      (∀ parts, name = .rel parts → (candidatesR fs parent parts).find? fs.isFile = some q)) ∧
+    childParent noKeys (infoOf (.file p)) = some (dirOf p) ∧
+    (getPipelineDefinitionR fs st name parent).1 = .ok p ∧
+    dirOf p ∈ (getPipelineDefinitionR fs st name parent).2.sysPath := by
+  have hfst := getPipelineDefinitionR_fst fs st name parent
+  refine ⟨?_, by simp [childParent, childLoader, infoOf, noKeys], by rw [hfst, h], ?_⟩
+  · cases name with
+    | abs parts =>
+      rw [getPipelinePathR_abs] at h
+      by_cases hf : fs.isFile (fileParts parts) = true
+      · simp only [hf, if_true, Except.ok.injEq] at h
+        exact ⟨fileParts parts, hf, h.symm, ⟨fun ps hps => (by cases hps; rfl), fun ps hps => (by cases hps)⟩⟩
+      · simp [hf] at h
+    | rel parts =>
+      rw [getPipelinePathR_rel] at h
+      cases hf : List.find? fs.isFile (candidatesR fs parent parts) with
+      | none => simp [hf] at h
+      | some q =>
+        simp only [hf, Except.ok.injEq] at h
+        exact ⟨q, List.find?_some hf, h.symm, ⟨fun ps hps => (by cases hps), fun ps hps => (by cases hps; exact hf)⟩⟩
+  · exact (getPipelineDefinitionR_good fs hfs st hg name parent).2.2 p (by rw [hfst, h])
+
+/-- `/e/link.yaml` is a symlink to `/t/real.yaml`; `/e/c.yaml` and `/t/c.yaml` both exist. -/
+def exFsLink : Fs :=
+  { cwd := ["w"], builtin := ["b"],
+    isFile := fun p => p == ["e", "link.yaml"] || p == ["t", "real.yaml"] || p == ["e", "c.yaml"] || p == ["t", "c.yaml"],
+    dirExists := fun d => d == ["w"] || d == ["e"] || d == ["t"] || d == ["b"],
+    realpath := fun p => if p == ["e", "link.yaml"] then ["t", "real.yaml"] else p }
+
+/-- `symlinked_pipeline_witness` — the pipeline reached as `/e/link` is the file `/t/real.yaml`: its
+    child `c` is `/t/c.yaml` (not `/e/c.yaml`, next to the link), and `/t` (not `/e`) goes on
+    `sys.path`: a step module next to the LINK is not importable through this load. -/
+theorem symlinked_pipeline_witness :
+    (runChainR exFsLink (fun _ => none) (fun _ _ => false) (fun _ => [])
+      { load := { fileCache := [], sysPath := [], known := [] } } none none
+      [{ nameStr := "/e/link", name := .abs ["e", "link"], pype := noKeys },
+       { nameStr := "c", name := .rel ["c"], pype := noKeys }]).1.map (·.1) =
+      [.file ["t", "real.yaml"], .file ["t", "c.yaml"]] ∧
+    (runChainR exFsLink (fun _ => none) (fun _ _ => false) (fun _ => [])
+      { load := { fileCache := [], sysPath := [], known := [] } } none none
+      [{ nameStr := "/e/link", name := .abs ["e", "link"], pype := noKeys },
+       { nameStr := "c", name := .rel ["c"], pype := noKeys }]).2.2.load.sysPath = [["t"]] := by
+  constructor <;> rfl
+
+/-- on a normalised symlink-free tree (`realpath` the identity) the `…R` look-up IS the look-up of
+    the first layer: everything proved about `getPipelinePath` above carries over. -/
+theorem getPipelinePathR_eq (fs : Fs) (hid : ∀ p, fs.realpath p = p) (name : Name) (parent : Option Path) :
+    getPipelinePathR fs name parent = getPipelinePath fs name parent := by
+  have hp : parent.map fs.realpath = parent := by cases parent <;> simp [hid]
+  unfold getPipelinePathR
+  rw [hp]
+  cases getPipelinePath fs name parent <;> simp [hid]
+
+theorem getPipelineDefinitionR_eq (fs : Fs) (hid : ∀ p, fs.realpath p = p) (st : LoadState) (name : Name)
+    (parent : Option Path) :
+    getPipelineDefinitionR fs st name parent = getPipelineDefinition fs st name parent := by
+  unfold getPipelineDefinitionR getPipelineDefinition
+  rw [getPipelinePathR_eq fs hid]
+
+theorem loadOneR_eq (fs : Fs) (hid : ∀ p, fs.realpath p = p) (custom : String → Option (Bool × Bool))
+    (st : LoadState) (loader : Option String) (h : Hop) (parent : Option Path) (hpy : h.pyDir = none) :
+    loadOneR fs custom st loader h parent = loadOne fs custom st loader h parent := by
+  unfold loadOneR loadOne
+  simp only [hpy, addPyDir, getPipelineDefinitionR_eq fs hid]
+
+theorem runChain_cons (fs : Fs) (custom : String → Option (Bool × Bool)) (st : LoadState) (caller : Option Info)
+    (rootLoader : Option String) (h : Hop) (hs : List Hop) :
+    runChain fs custom st caller rootLoader (h :: hs) =
+      match loadOne fs custom st (hopArgs rootLoader caller h).1 h (hopArgs rootLoader caller h).2 with
+      | (.error e, st') => ([], some e, st')
+      | (.ok ld, st') =>
+        if endsChain fs ld then ([ld], none, st')
+        else (ld :: (runChain fs custom st' (some (infoOf ld)) rootLoader hs).1,
+              (runChain fs custom st' (some (infoOf ld)) rootLoader hs).2.1,
+              (runChain fs custom st' (some (infoOf ld)) rootLoader hs).2.2) := by
+  cases caller <;> rfl
+
+/-- `runChain` (first layer: no symlinks, no `py_dir`, no imports) is `runChainR` on such a tree —
+    so `chain_spec`, `chain_child_from_previous_file` and `chain_sys_path` speak about it too. -/
+theorem runChain_eq_runChainR (fs : Fs) (hid : ∀ p, fs.realpath p = p) (custom : String → Option (Bool × Bool))
+    (has : Path → String → Bool) (importsOf : Loaded → List String) (himp : ∀ ld, importsOf ld = [])
+    (rootLoader : Option String) (hops : List Hop) (hplain : ∀ h ∈ hops, h.pyDir = none) :
+    ∀ (st : Proc) (caller : Option Info),
+      runChain fs custom st.load caller rootLoader hops =
+        (((runChainR fs custom has importsOf st caller rootLoader hops).1.map (·.1)),
+          (runChainR fs custom has importsOf st caller rootLoader hops).2.1,
+          (runChainR fs custom has importsOf st caller rootLoader hops).2.2.load) := by
+  induction hops with
+  | nil => intro st caller; rfl
+  | cons h hs ih =>
+    intro st caller
+    have hpy := hplain h List.mem_cons_self
+    have ih' := ih (fun x hx => hplain x (List.mem_cons_of_mem _ hx))
+    have hl := loadOneR_eq fs hid custom st.load (hopArgs rootLoader caller h).1 h (hopArgs rootLoader caller h).2 hpy
+    rw [runChain_cons]
+    simp only [runChainR]
+    rw [hl]
+    cases hld : loadOne fs custom st.load (hopArgs rootLoader caller h).1 h (hopArgs rootLoader caller h).2 with
+    | mk res ld' =>
+      cases res with
+      | error e => rfl
+      | ok ld =>
+        simp only
+        by_cases hend : endsChain fs ld = true
+        · simp [hend]
+        · have hend' : endsChain fs ld = false := by simpa using hend
+          simp only [hend', Bool.false_eq_true, if_false, himp ld, importAll, List.find?_nil]
+          rw [ih' { load := ld', modules := st.modules } (some (infoOf ld))]
+          simp
+
+/-! ### "importable": which file an import binds -/
+
+/-- `module_next_to_pipeline_wins_iff_no_earlier` — `d` is on `sys.path` (first at the position
+    shown) and holds a module `m`. `import m` binds `d`'s file IFF `sys.modules` already has `m`
+    from `d`, or `m` has not been imported yet and NO entry of `sys.path` before `d` holds an `m`.
+    Being on `sys.path` (`sys_path_has_pipeline_dir`) is necessary for a module next to a pipeline
+    to be importable, not sufficient: `add_sys_path` appends. -/
+theorem module_next_to_pipeline_wins_iff_no_earlier (pre post : List Path) (d : Path)
+    (has : Path → String → Bool) (loaded : List (String × Path)) (m : String)
+    (hd : has d m = true) (hpre : d ∉ pre) :
+    resolveModule (pre ++ d :: post) has loaded m = some d ↔
+      loaded.lookup m = some d ∨ (loaded.lookup m = none ∧ ∀ e ∈ pre, has e m = false) := by
+  unfold resolveModule
+  cases hl : loaded.lookup m with
+  | some x => simp
+  | none =>
+    simp only [reduceCtorEq, false_or, true_and]
+    constructor
+    · intro hf e he
+      cases hem : has e m with
+      | false => rfl
+      | true =>
+        exfalso
+        obtain ⟨as, bs, heq, hbefore⟩ := List.find?_eq_some_iff_append.mp hf |>.2
+        -- `e ∈ pre` has `m`: the first hit is in `pre`, so it cannot be `d`
+        have hfind : ∃ x, (pre ++ d :: post).find? (fun d => has d m) = some x ∧ x ∈ pre := by
+          rw [List.find?_append]
+          cases hp : pre.find? (fun d => has d m) with
+          | some x => exact ⟨x, rfl, List.mem_of_find?_eq_some hp⟩
+          | none =>
+            have := List.find?_eq_none.mp hp e he
+            simp [hem] at this
+        obtain ⟨x, hx, hxp⟩ := hfind
+        rw [hf] at hx
+        cases hx
+        exact hpre hxp
+    · intro hnone
+      rw [List.find?_append]
+      have : pre.find? (fun d => has d m) = none :=
+        List.find?_eq_none.mpr (fun e he => by simp [hnone e he])
+      simp [this, hd]
+
+/-- … hence: the module next to a freshly loaded pipeline is the one its steps get exactly when it
+    is not shadowed — stated on the state a load leaves behind. -/
+theorem import_after_load (fs : Fs) (hfs : FsOkR fs) (st : LoadState) (hg : Good st) (name : Name)
+    (parent : Option Path) (p : Path) (h : getPipelinePathR fs name parent = .ok p)
+    (has : Path → String → Bool) (loaded : List (String × Path)) (m : String) (hm : has (dirOf p) m = true) :
+    ∃ pre post, (getPipelineDefinitionR fs st name parent).2.sysPath = pre ++ dirOf p :: post ∧ dirOf p ∉ pre ∧
+      (resolveModule (getPipelineDefinitionR fs st name parent).2.sysPath has loaded m = some (dirOf p) ↔
+        loaded.lookup m = some (dirOf p) ∨ (loaded.lookup m = none ∧ ∀ e ∈ pre, has e m = false)) := by
+  have hmem := (child_parent_is_realpath_dir fs hfs st hg name parent p h).2.2.2
+  obtain ⟨pre, post, heq, hpre⟩ := List.eq_append_cons_of_mem hmem
+  refine ⟨pre, post, heq, hpre, ?_⟩
+  rw [heq]
+  exact module_next_to_pipeline_wins_iff_no_earlier pre post (dirOf p) has loaded m hm hpre
+
+/-- `/a/p.yaml` and `/b/p.yaml` each have a `mystep.py` next to them. -/
+def exFsTwo : Fs :=
+  { cwd := ["w"], builtin := ["b0"],
+    isFile := fun p => p == ["a", "p.yaml"] || p == ["b", "p.yaml"],
+    dirExists := fun d => d == ["w"] || d == ["a"] || d == ["b"] || d == ["b0"] }
+
+def exHas : Path → String → Bool := fun d m => (d == ["a"] || d == ["b"] || d == ["w"]) && m == "mystep"
+
+/-- `shadow_witness` — two pipelines in different directories, each with its own `mystep` next to
+    it, run one after the other in one process: both directories are on `sys.path`, yet the second
+    pipeline's `import mystep` binds the FIRST pipeline's file (already in `sys.modules`; and `/a`
+    is ahead of `/b` on `sys.path` anyway). With `--dir` at its default (the cwd, which also has a
+    `mystep`) even the first pipeline gets the cwd's file. -/
+theorem shadow_witness :
+    let hopA : Hop := { nameStr := "/a/p", name := .abs ["a", "p"], pype := noKeys }
+    let hopB : Hop := { nameStr := "/b/p", name := .abs ["b", "p"], pype := noKeys }
+    let st0 : Proc := { load := { fileCache := [], sysPath := [["site"]], known := [] } }
+    let r1 := runChainR exFsTwo (fun _ => none) exHas (fun _ => ["mystep"]) st0 none none [hopA]
+    let r2 := runChainR exFsTwo (fun _ => none) exHas (fun _ => ["mystep"]) r1.2.2 none none [hopB]
+    r1.1 = [(.file ["a", "p.yaml"], [("mystep", some ["a"])])] ∧
+    r2.1 = [(.file ["b", "p.yaml"], [("mystep", some ["a"])])] ∧
+    r2.2.2.load.sysPath = [["site"], ["a"], ["b"]] ∧
+    (runChainR exFsTwo (fun _ => none) exHas (fun _ => ["mystep"]) st0 none none [{ hopA with pyDir := some ["w"] }]).1 =
+      [(.file ["a", "p.yaml"], [("mystep", some ["w"])])] := by
+  refine ⟨rfl, rfl, rfl, rfl⟩
+
+/-- the cure is not in `sys.path` alone: with `/b` AHEAD of `/a` the second import is still served
+    from `sys.modules`. -/
+example : resolveModule [["b"], ["a"]] exHas [("mystep", ["a"])] "mystep" = some ["a"] ∧
+    resolveModule [["b"], ["a"]] exHas [] "mystep" = some ["b"] := by
+  constructor <;> rfl
+
+/-! ### a relative `parent` is read against the OS cwd of the moment, not `config.cwd` -/
+
+/-- `relative_parent_reads_os_cwd` — a relative parent `rel` is the directory `os.getcwd()/rel` as
+    it is when the look-up runs; an absolute one is itself; `config.cwd` (`fs.cwd`) plays no part in
+    reading the parent (only in the cwd and cwd/pipelines candidates that follow it). -/
+theorem relative_parent_reads_os_cwd (fs : Fs) (osCwd : Path) (name : Name) (parts : List String) (p : Path) :
+    getPipelinePathA fs osCwd name (some (.rel parts)) = getPipelinePathR fs name (some (osCwd ++ parts)) ∧
+    getPipelinePathA fs osCwd name (some (.abs p)) = getPipelinePathR fs name (some p) ∧
+    getPipelinePathA fs osCwd name none = getPipelinePathR fs name none := ⟨rfl, rfl, rfl⟩
+
+/-- imported in `/w`, then `os.chdir('/e')`: the relative parent `sub` is `/e/sub`, not `/w/sub`,
+    while the fall-through candidates are still `/w` and `/w/pipelines`. -/
+def exFsRel : Fs :=
+  { cwd := ["w"], builtin := ["b"],
+    isFile := fun p => p == ["e", "sub", "x.yaml"] || p == ["w", "sub", "x.yaml"] || p == ["w", "y.yaml"],
+    dirExists := fun d => d == ["w"] || d == ["e"] || d == ["e", "sub"] || d == ["w", "sub"] || d == ["b"] }
+
+example :
+    getPipelinePathA exFsRel ["e"] (.rel ["x"]) (some (.rel ["sub"])) = .ok ["e", "sub", "x.yaml"] ∧
+    getPipelinePathA exFsRel ["w"] (.rel ["x"]) (some (.rel ["sub"])) = .ok ["w", "sub", "x.yaml"] ∧
+    getPipelinePathA exFsRel ["e"] (.rel ["y"]) (some (.rel ["sub"])) = .ok ["w", "y.yaml"] := by
+  refine ⟨rfl, rfl, rfl⟩
 
 end Pypyr.C19
